@@ -134,6 +134,10 @@ func init() {
 			u.frameDone["rvzero"] = true
 			u.fact("(not (rv_valid rv_zero))")
 		}
+		if u.quantOK && !u.frameDone["rvof-axiom"] {
+			u.frameDone["rvof-axiom"] = true
+			u.fact("(forall ((qx Iface)) (! (and (= (rv_valid (rv_of qx)) (distinct (ityp qx) T_nil)) (= (rv_type (rv_of qx)) (ityp qx)) (= (rv_iface (rv_of qx)) qx)) :pattern ((rv_of qx))))")
+		}
 		v := app("rv_of", x)
 		ck := "rvof:" + x
 		if !u.frameDone[ck] {
